@@ -1,7 +1,12 @@
 use crate::config::WindowType;
 use std::collections::VecDeque;
 use std::sync::{Arc, Mutex};
+#[cfg(not(feature = "verif-hooks"))]
 use std::time::{Duration, Instant};
+#[cfg(feature = "verif-hooks")]
+use std::time::Duration;
+#[cfg(feature = "verif-hooks")]
+use tokio::time::Instant;
 use tokio::time::sleep;
 
 /// Result of attempting to acquire a permit.
